@@ -5,6 +5,7 @@ package main
 import (
 	"bytes"
 	"fmt"
+	"io"
 	"net"
 	"runtime"
 	"runtime/debug"
@@ -26,9 +27,24 @@ func main() { vm.Main("C07", run) }
 type poolSpy struct {
 	out    bytes.Buffer
 	ranges [][]byte // slices covering pooled memory (kept reachable on purpose)
+	// while a Write is in progress (a slow peer, a full socket buffer) other connections keep packing: the spy
+	// packs two more packets from inside its Write and looks whether the bytes it was handed changed meanwhile
+	nesting   bool
+	clobbered string
 }
 
 func (s *poolSpy) Write(p []byte) (int, error) {
+	if !s.nesting && len(p) > 0 {
+		s.nesting = true
+		before := append([]byte{}, p...)
+		other := pk.Packet{ID: 0x55, Data: bytes.Repeat([]byte{0xEE}, len(p)/2+3)}
+		_ = other.Pack(io.Discard, -1)
+		_ = other.Pack(io.Discard, 1)
+		if !bytes.Equal(before, p) && s.clobbered == "" {
+			s.clobbered = fmt.Sprintf("%d bytes handed to Write; after two other packets were packed during that Write they read %x..., before %x...", len(p), p[:min(len(p), 16)], before[:min(len(before), 16)])
+		}
+		s.nesting = false
+	}
 	s.out.Write(p)
 	if cap(p) > 0 {
 		s.ranges = append(s.ranges, p[:cap(p)])
@@ -200,6 +216,11 @@ func checkSequence(c *vm.Ctx, r *vm.Rand, spy *poolSpy, big bool) {
 		}
 		if !bytes.Equal(p.Data, pkts[i].payload) || p.ID != id {
 			c.Violation("pack/modified-packet", "Pack modified the packet it was given", wit(i)())
+		}
+		if spy.clobbered != "" {
+			c.Violation("pool/frame-changed-while-being-written", "the frame passed to the writer lies in memory the packer had already given back: "+spy.clobbered, wit(i)())
+			spy.clobbered = ""
+			return
 		}
 		frame := spy.out.Bytes()[before:]
 		// conformance by the independent reader
